@@ -1873,6 +1873,9 @@ def run_insert_leg(ctx, probe_handle=None):
             c = hh[c].parent
         if c is not None and c.idx != node.idx:
             l = (src.idx, -1, c.idx, -1)
+            if a_after["links"][l] < 1:
+                # the edge is only legal with that order edge (hugr.md, "Ext" edges), and add_nested & co. add it
+                ctx.violate("root-placement", f"wire-from-an-enclosing-region-attached-without-its-order-edge:{how}", {"wire": [src.idx, w.out_port().offset], "container": c.idx})
             if links[l] > a_before["links"][l]:
                 links[l] -= 1
                 if links[l] == 0:
